@@ -1,5 +1,6 @@
 import ElexModel.Lemmas.Aggregate
 import ElexModel.Core.BootAgg
+import ElexModel.Gen.C02
 
 /-!
 # C02 — every aggregate equals the sum of its units; levels agree with each other
@@ -161,5 +162,54 @@ example :
       = [(0, 15, 12, 1), (1, 7, 7, 1), (2, 3, 3, 0)] ∧
     aggIntervalNP false rep nonrep unexp = [(0, 14, 19), (1, 7, 7), (2, 3, 3)] := by
   decide +kernel
+
+end ElexModel.Agg
+
+/-! ### bridge: the aggregation chains as they are in `/repo/src` on this run (regenerated by the relational translator) -/
+
+namespace ElexModel.Agg
+open ElexModel ElexModel.Table
+
+/-- `_get_reporting_aggregate_votes`: key list and both value columns of the source chain are the model's `votes` -/
+theorem bridge_votes (cls : Bool) (f : U → ℚ) (rep unexp : List U) :
+    keys (votes cls f rep unexp) =
+      Gen.C02.votes_keys (keys (groupSum (col f rep))) (keys (groupSum (col f unexp))) cls ∧
+    (∀ k, val k (votes cls f rep unexp) = Gen.C02.votes_results_E (groupSum (col f rep)) (groupSum (col f unexp)) cls k) ∧
+    (∀ k, val k (votes cls f rep unexp) = Gen.C02.votes_reporting (groupSum (col f rep)) (groupSum (col f unexp)) cls k) := by
+  unfold votes Gen.C02.votes_keys Gen.C02.votes_results_E Gen.C02.votes_reporting
+  cases cls
+  · simp [keys_addTables, val_addTables]
+  · simp
+
+/-- `get_aggregate_predictions`: outer merge of the counted frame with the nonreporting group sums, fill, add -/
+theorem bridge_aggPred (cls : Bool) (rep nonrep unexp : List U) :
+    (aggPred cls rep nonrep unexp).map (·.key) =
+      Gen.C02.agg_keys (keys (votes cls (·.results) rep unexp)) (keys (groupSum (col (·.pred) nonrep))) ∧
+    ∀ r ∈ aggPred cls rep nonrep unexp,
+      r.pred = Gen.C02.agg_pred_E (votes cls (·.results) rep unexp) (groupSum (col (·.pred) nonrep)) r.key ∧
+      r.results = Gen.C02.agg_results_E (votes cls (·.results) rep unexp) (groupSum (col (·.results) nonrep)) r.key ∧
+      r.reporting = Gen.C02.agg_reporting (votes cls (·.reporting) rep unexp) (groupSum (col (·.reporting) nonrep)) r.key := by
+  refine ⟨aggPred_keys cls rep nonrep unexp, ?_⟩
+  intro r hr
+  unfold aggPred at hr
+  simp only [List.mem_map] at hr
+  obtain ⟨k, _, rfl⟩ := hr
+  exact ⟨rfl, rfl, rfl⟩
+
+/-- nonparametric `get_aggregate_prediction_intervals`: sums of the unit bounds plus the counted votes, rounded -/
+theorem bridge_aggIntervalNP (cls : Bool) (rep nonrep unexp : List U) :
+    (aggIntervalNP cls rep nonrep unexp).map (·.1) =
+      Gen.C02.np_keys (keys (votes cls (·.results) rep unexp)) (keys (groupSum (col (·.lower) nonrep))) ∧
+    ∀ r ∈ aggIntervalNP cls rep nonrep unexp,
+      r.2.1 = Gen.C02.np_lower (votes cls (·.results) rep unexp) (groupSum (col (·.lower) nonrep)) r.1 ∧
+      r.2.2 = Gen.C02.np_upper (votes cls (·.results) rep unexp) (groupSum (col (·.upper) nonrep)) r.1 := by
+  refine ⟨aggIntervalNP_keys cls rep nonrep unexp, ?_⟩
+  intro r hr
+  unfold aggIntervalNP at hr
+  simp only [List.mem_map] at hr
+  obtain ⟨k, _, rfl⟩ := hr
+  exact ⟨rfl, rfl⟩
+
+theorem bridge_np_columns : Gen.C02.np_unit_columns = ["lower_{alpha}_{estimand}", "upper_{alpha}_{estimand}"] := rfl
 
 end ElexModel.Agg
